@@ -629,6 +629,9 @@ class PenlogReader:
         offset: int = 0,
         reverse: bool = False,
     ) -> Iterator[PenlogRecord]:
+        if offset < 0:
+            # A tail that is longer than the log starts at the first record.
+            offset = max(offset, -len(self))
         self.seek_to_record(offset)
         if reverse is False:
             while True:
